@@ -1,207 +1,364 @@
-"""Translate the fieldwise operators of fim.slivers.capacities_labels.Capacities into Lean.
+"""Translate the fieldwise operators of fim.slivers.capacities_labels.Capacities into Lean (Generated/CapOps.lean).
 
-Recognised idiom (anything else is an ExtractionError):
-  arithmetic:  assert isinstance(other, Capacities); ret = Capacities();
-               for f, v in self.__dict__.items(): ret.__dict__[f] = <E(self.__dict__[f], other.__dict__[f])>; return ret
-  comparison:  [if not other: return False;] assert ...; for f, v in self.__dict__.items(): if <C(v, other.__dict__[f] | other.__dict__.get(f, 0))>: return False; return True
-  negative_fields: ret = list(); for f, v in self.__dict__.items(): if <C(v)>: ret.append(f); return ret
-  positive_fields: ...; for f in fields: if <C(self.__dict__[f])>: return False; return True
-  FreeCapacity.__init__: self.free = <E(total, allocated)>
+The operators are *executed symbolically* (gen/symexec.py) instead of being matched against a loop shape, so a helper
+function, a comprehension, `all()`/`any()`, renamed locals or `operator.add` give the same output as the explicit loops:
+
+  arithmetic (`__add__`, `__sub__`, `FreeCapacity(total=, allocated=).free`):
+      run on operands whose every field is a distinct symbol; there must be no data-dependent decision, no exception, the
+      result must be a NEW Capacities with exactly the class's fields, both operands must hold the very same objects afterwards,
+      and every result field f must be the same expression E(self.f, other.f)  ->  `def addOp (a b : Int) : Int := E`
+  comparison (`__gt__`, `__lt__`, `__eq__`, `positive_fields`):
+      the set of execution paths must be exactly "look at the fields in order, answer False at the first field whose
+      condition C(self.f, other.f) holds, True after the last"                ->  `def gtFail (a b : Int) : Bool := decide C`
+  `negative_fields`: the 2^n paths must be "the list of the fields, in order, whose C(self.f) holds" -> `negField`
+
+Afterwards the extracted operators are replayed on concrete integers (unit vectors and dense vectors over a basis with
+negative, zero and huge values) against the real methods; a difference (code that treats a real int differently from what the
+symbolic run saw) is an ExtractionError, as is everything above that does not hold.  A light AST check rejects code in the class
+that inspects `type()`/`id()` of values.
+
+The list of special methods (`__x__`) is read from the running class (whole MRO below `object`), so operators added by a
+decorator, an assignment in the class body or a mixin are seen as well.
 """
 import ast
+import itertools
+
 from .common import *
+from . import symexec as sx
+from .symexec import Sym
 
 REL = "fim/slivers/capacities_labels.py"
 
-
-def _is_dict_of(node, who):
-    # who.__dict__[f]
-    return (isinstance(node, ast.Subscript) and isinstance(node.value, ast.Attribute) and node.value.attr == "__dict__"
-            and isinstance(node.value.value, ast.Name) and node.value.value.id == who
-            and isinstance(node.slice, ast.Name) and node.slice.id == "f")
+BASIS = [-(10 ** 30), -(2 ** 63) - 1, -7, -1, 0, 1, 2, 9, 2 ** 31, 2 ** 63, 2 ** 64 + 1, 10 ** 30]
 
 
-def _is_dict_get(node, who):
-    # who.__dict__.get(f, 0)
-    return (isinstance(node, ast.Call) and isinstance(node.func, ast.Attribute) and node.func.attr == "get"
-            and isinstance(node.func.value, ast.Attribute) and node.func.value.attr == "__dict__"
-            and isinstance(node.func.value.value, ast.Name) and node.func.value.value.id == who
-            and len(node.args) == 2 and isinstance(node.args[0], ast.Name) and node.args[0].id == "f"
-            and isinstance(node.args[1], ast.Constant) and node.args[1].value == 0)
+def _module():
+    import fim.slivers.capacities_labels as cl
+    return cl
 
 
-def expr(node, env):
-    """Python int expression -> Lean Int expression over variables a (self side) and b (other side)."""
-    for name, test in env:
-        if test(node):
-            return name
-    if isinstance(node, ast.Constant) and isinstance(node.value, int) and not isinstance(node.value, bool):
-        return "(%d : Int)" % node.value
-    if isinstance(node, ast.BinOp) and type(node.op) in (ast.Add, ast.Sub, ast.Mult):
-        op = {ast.Add: "+", ast.Sub: "-", ast.Mult: "*"}[type(node.op)]
-        return "(%s %s %s)" % (expr(node.left, env), op, expr(node.right, env))
-    if isinstance(node, ast.UnaryOp) and isinstance(node.op, ast.USub):
-        return "(- %s)" % expr(node.operand, env)
-    raise ExtractionError("unrecognised arithmetic expression: %s" % ast.dump(node)[:200])
+def _fresh(cl, side, fields):
+    c = cl.Capacities()
+    if list(c.__dict__.keys()) != fields:
+        raise ExtractionError("Capacities() does not always have the same fields")
+    for f in fields:
+        c.__dict__[f] = Sym(("var", side, f))
+    return c
 
 
-def cond(node, env):
-    if isinstance(node, ast.Compare) and len(node.ops) == 1:
-        op = {ast.Lt: "<", ast.Gt: ">", ast.LtE: "≤", ast.GtE: "≥", ast.Eq: "=", ast.NotEq: "≠"}.get(type(node.ops[0]))
-        if op is None:
-            raise ExtractionError("unrecognised comparison operator")
-        return "decide (%s %s %s)" % (expr(node.left, env), op, expr(node.comparators[0], env))
-    if isinstance(node, ast.BoolOp):
-        j = " && " if isinstance(node.op, ast.And) else " || "
-        return "(" + j.join(cond(v, env) for v in node.values) + ")"
-    if isinstance(node, ast.UnaryOp) and isinstance(node.op, ast.Not):
-        return "(!%s)" % cond(node.operand, env)
-    raise ExtractionError("unrecognised condition: %s" % ast.dump(node)[:200])
+def _snapshot(c):
+    return [(k, id(v)) for k, v in c.__dict__.items()]
 
 
-def _loop_over_self_dict(st):
-    return (isinstance(st, ast.For) and isinstance(st.target, ast.Tuple) and [e.id for e in st.target.elts] == ["f", "v"]
-            and isinstance(st.iter, ast.Call) and isinstance(st.iter.func, ast.Attribute) and st.iter.func.attr == "items"
-            and isinstance(st.iter.func.value, ast.Attribute) and st.iter.func.value.attr == "__dict__"
-            and isinstance(st.iter.func.value.value, ast.Name) and st.iter.func.value.value.id == "self" and not st.orelse)
+class _Run:
+    """One symbolic call: fresh operands per path, operands checked for modification after the call."""
+
+    def __init__(self, cl, fields, call, what, unary=False):
+        self.cl, self.fields, self.call, self.what, self.unary = cl, fields, call, what, unary
+
+    def __call__(self):
+        A = _fresh(self.cl, "a", self.fields)
+        B = None if self.unary else _fresh(self.cl, "b", self.fields)
+        snap = (_snapshot(A), None if B is None else _snapshot(B))
+        keep = (list(A.__dict__.values()), None if B is None else list(B.__dict__.values()))   # keep ids alive
+        try:
+            r = self.call(A, B)
+            if isinstance(r, sx.SymBool):
+                r = bool(r)
+        finally:
+            after = (_snapshot(A), None if B is None else _snapshot(B))
+        if after != snap:
+            raise ExtractionError("%s modifies an operand" % self.what)
+        del keep
+        return r, A, B
 
 
-def _is_assert_isinstance(st):
-    return isinstance(st, ast.Assert) and isinstance(st.test, ast.Call) and getattr(st.test.func, "id", "") == "isinstance"
+def _paths(cl, fields, call, what, unary=False, max_paths=4096):
+    paths = sx.explore(_Run(cl, fields, call, what, unary), max_paths)
+    for trace, res in paths:
+        if res[0] == "raise":
+            e = res[1]
+            raise ExtractionError("%s raises %s on the path %s" % (
+                what, type(e).__name__, " and ".join(sx.show(sx.true_form(c, o)) for c, o in trace) or "(unconditionally)"))
+    return [(trace, res[1]) for trace, res in paths]
 
 
-def _ret_const(st, val):
-    return isinstance(st, ast.Return) and isinstance(st.value, ast.Constant) and st.value.value is val
+def _per_field(e, f, what):
+    """rename self.f -> a, other.f -> b; any other field is a cross-field dependency"""
+    def ren(v):
+        if v[2] != f:
+            raise ExtractionError("%s: field %s depends on field %s" % (what, f, v[2]))
+        return ("var", v[1], "")
+    return sx.rename(e, ren)
 
 
-ENV2 = [("a", lambda n: _is_dict_of(n, "self") or (isinstance(n, ast.Name) and n.id == "v")),
-        ("b", lambda n: _is_dict_of(n, "other") or _is_dict_get(n, "other"))]
+def _uniform(exprs, what):
+    first = exprs[0][1]
+    for f, e in exprs:
+        if e != first:
+            raise ExtractionError("%s is not the same operation in every field: %s gives %s, %s gives %s" % (
+                what, exprs[0][0], sx.show(first), f, sx.show(e)))
+    return first
 
 
-def arith(fn):
-    body = strip_doc(fn.body)
-    body = [s for s in body if not _is_assert_isinstance(s)]
-    if len(body) != 3:
-        raise ExtractionError("%s: expected ret=Capacities(); for; return ret" % fn.name)
-    a, loop, r = body
-    if not (isinstance(a, ast.Assign) and isinstance(a.value, ast.Call) and getattr(a.value.func, "id", "") == "Capacities"
-            and not a.value.args and not a.value.keywords and a.targets[0].id == "ret"):
-        raise ExtractionError("%s: first statement is not ret = Capacities()" % fn.name)
-    if not _loop_over_self_dict(loop) or len(loop.body) != 1:
-        raise ExtractionError("%s: loop shape" % fn.name)
-    st = loop.body[0]
-    if not (isinstance(st, ast.Assign) and len(st.targets) == 1 and _is_dict_of(st.targets[0], "ret")):
-        raise ExtractionError("%s: loop body is not ret.__dict__[f] = ..." % fn.name)
-    if not (isinstance(r, ast.Return) and isinstance(r.value, ast.Name) and r.value.id == "ret"):
-        raise ExtractionError("%s: does not return ret" % fn.name)
-    return expr(st.value, ENV2)
+def _result_fields(ret, A, B, cl, fields, what):
+    if type(ret) is not cl.Capacities:
+        raise ExtractionError("%s does not return a Capacities (%s)" % (what, type(ret).__name__))
+    if ret is A or ret is B:
+        raise ExtractionError("%s returns one of its operands instead of a new object" % what)
+    if list(ret.__dict__.keys()) != fields:
+        raise ExtractionError("%s: result has fields %s" % (what, list(ret.__dict__.keys())))
+    out = []
+    for f in fields:
+        v = ret.__dict__[f]
+        if isinstance(v, Sym):
+            e = v.e
+        elif type(v) is int and abs(v) < 2 ** 32:
+            e = ("const", v)
+        else:
+            raise ExtractionError("%s: field %s of the result is %r - the code left integer arithmetic" % (what, f, type(v).__name__))
+        out.append((f, _per_field(e, f, what)))
+    return out
 
 
-def compare(fn, allow_not_other=False):
-    body = strip_doc(fn.body)
-    pre = []
-    if allow_not_other and body and isinstance(body[0], ast.If) and isinstance(body[0].test, ast.UnaryOp) \
-            and isinstance(body[0].test.op, ast.Not) and getattr(body[0].test.operand, "id", "") == "other" \
-            and len(body[0].body) == 1 and _ret_const(body[0].body[0], False) and not body[0].orelse:
-        body = body[1:]
-    body = [s for s in body if not _is_assert_isinstance(s)]
-    if len(body) != 2 or not _loop_over_self_dict(body[0]) or not _ret_const(body[1], True):
-        raise ExtractionError("%s: expected for-loop then return True" % fn.name)
-    inner = [s for s in body[0].body if not (isinstance(s, ast.Expr) and isinstance(s.value, ast.Constant))]
-    if len(inner) != 1 or not isinstance(inner[0], ast.If) or inner[0].orelse or len(inner[0].body) != 1 \
-            or not _ret_const(inner[0].body[0], False):
-        raise ExtractionError("%s: loop body is not `if C: return False`" % fn.name)
-    return cond(inner[0].test, ENV2)
+def arith(cl, fields, call, what):
+    paths = _paths(cl, fields, call, what)
+    if len(paths) != 1 or paths[0][0]:
+        raise ExtractionError("%s depends on a comparison of its operands' values: %s" % (
+            what, "; ".join(sx.show(c) for c, _ in paths[0][0][:3])))
+    ret, A, B = paths[0][1]
+    return _uniform(_result_fields(ret, A, B, cl, fields, what), what)
 
 
-def negative_fields(fn):
-    body = strip_doc(fn.body)
-    if len(body) != 3 or not _loop_over_self_dict(body[1]):
-        raise ExtractionError("negative_fields: shape")
-    st = body[1].body
-    if len(st) != 1 or not isinstance(st[0], ast.If) or st[0].orelse or len(st[0].body) != 1:
-        raise ExtractionError("negative_fields: loop body")
-    app = st[0].body[0]
-    if not (isinstance(app, ast.Expr) and isinstance(app.value, ast.Call) and getattr(app.value.func, "attr", "") == "append"
-            and getattr(app.value.func.value, "id", "") == "ret" and getattr(app.value.args[0], "id", "") == "f"):
-        raise ExtractionError("negative_fields: does not append f to ret")
-    if not (isinstance(body[2], ast.Return) and getattr(body[2].value, "id", "") == "ret"):
-        raise ExtractionError("negative_fields: return")
-    return cond(st[0].test, ENV2)
+def first_fail(cl, fields, call, what, order=None, unary=False):
+    """paths must be: fields in `order`; False at the first field whose fail condition holds; True at the end.
+    Returns the fail condition as a condition over a (self side) and b (other side)."""
+    order = fields if order is None else order
+    paths = _paths(cl, fields, call, what, unary)
+    good = [(t, r) for t, r in paths if r[0] is True]
+    if len(good) != 1:
+        raise ExtractionError("%s: %d execution paths answer True (expected exactly one: no field fails)" % (what, len(good)))
+    spine = good[0][0]
+    if len(spine) != len(order):
+        raise ExtractionError("%s: the True answer looks at %d conditions for %d fields" % (what, len(spine), len(order)))
+    fails = []
+    for (c, o), f in zip(spine, order):
+        fails.append((f, _per_field(sx.true_form(c, not o), f, what)))
+    want = {}
+    for k in range(len(order)):
+        want[tuple(spine[:k]) + ((spine[k][0], not spine[k][1]),)] = False
+    want[tuple(spine)] = True
+    got = {}
+    for t, r in paths:
+        if type(r[0]) is not bool:
+            raise ExtractionError("%s answers %r" % (what, type(r[0]).__name__))
+        got[tuple(t)] = r[0]
+    if got != want:
+        raise ExtractionError("%s is not `False at the first failing field, True otherwise` (%d paths)" % (what, len(paths)))
+    return fails
 
 
-def positive_fields(fn):
-    body = strip_doc(fn.body)
-    loops = [s for s in body if isinstance(s, ast.For)]
-    if len(loops) != 1 or not _ret_const(body[-1], True):
-        raise ExtractionError("positive_fields: shape")
-    lp = loops[0]
-    if not (isinstance(lp.target, ast.Name) and lp.target.id == "f" and getattr(lp.iter, "id", "") == "fields"):
-        raise ExtractionError("positive_fields: loop header")
-    st = lp.body
-    if len(st) != 1 or not isinstance(st[0], ast.If) or not _ret_const(st[0].body[0], False):
-        raise ExtractionError("positive_fields: loop body")
-    return cond(st[0].test, ENV2)
+def neg_fields(cl, fields, what="negative_fields"):
+    n = len(fields)
+    if n > 11:
+        raise ExtractionError("too many fields to enumerate negative_fields")
+    paths = _paths(cl, fields, lambda A, B: A.negative_fields(), what, unary=True, max_paths=2 ** n + 1)
+    empty = [(t, r) for t, r in paths if r[0] == []]
+    if len(empty) != 1 or len(empty[0][0]) != n or len(paths) != 2 ** n:
+        raise ExtractionError("%s: not one independent decision per field (%d paths)" % (what, len(paths)))
+    spine = empty[0][0]
+    conds = [(f, _per_field(sx.true_form(c, not o), f, what)) for (c, o), f in zip(spine, fields)]
+    for t, r in paths:
+        if [c for c, _ in t] != [c for c, _ in spine]:
+            raise ExtractionError("%s: decisions differ between paths" % what)
+        want = [f for (c, o), (_, so), f in zip(t, spine, fields) if o != so]
+        if type(r[0]) is not list or r[0] != want:
+            raise ExtractionError("%s does not return exactly the fields whose condition holds, in field order" % what)
+    return _uniform(conds, what)
 
 
-def free_capacity(cls):
-    fn = find_func(cls, "__init__")
-    free = None
-    for st in ast.walk(fn):
-        if isinstance(st, ast.Assign) and isinstance(st.targets[0], ast.Attribute) and st.targets[0].attr == "free":
-            free = st.value
-    if free is None:
-        raise ExtractionError("FreeCapacity.__init__: no self.free assignment")
-    # total - allocated uses Capacities.__sub__/__add__: express through the generated field operators
-    def e(n):
-        if isinstance(n, ast.Name) and n.id == "total":
-            return "a"
-        if isinstance(n, ast.Name) and n.id == "allocated":
-            return "b"
-        if isinstance(n, ast.BinOp) and isinstance(n.op, ast.Sub):
-            return "(subOp %s %s)" % (e(n.left), e(n.right))
-        if isinstance(n, ast.BinOp) and isinstance(n.op, ast.Add):
-            return "(addOp %s %s)" % (e(n.left), e(n.right))
-        raise ExtractionError("FreeCapacity: unrecognised free expression")
-    return e(free)
+def probe_aug(cl, fields, expr, which):
+    """`acc = A; acc += B` (or -=): does the name get a NEW object (A untouched), or is A changed in place?"""
+    def run():
+        A, B = _fresh(cl, "a", fields), _fresh(cl, "b", fields)
+        before = (dict(A.__dict__), _snapshot(A), _snapshot(B))
+        acc = A
+        if which == "iadd":
+            acc += B
+        else:
+            acc -= B
+        return acc, A, B, before
+    paths = sx.explore(run, 64)
+    if len(paths) != 1 or paths[0][0] or paths[0][1][0] != "ok":
+        raise ExtractionError("augmented %s on capacities branches on values or raises" % which)
+    acc, A, B, (a_vals, a_snap, b_snap) = paths[0][1][1]
+    if _snapshot(B) != b_snap:
+        raise ExtractionError("augmented %s modifies its right operand" % which)
+    got = _uniform(_result_fields(acc, None, B, cl, fields, "augmented " + which), "augmented " + which)
+    if got != expr:
+        raise ExtractionError("augmented %s computes %s, the binary operator %s" % (which, sx.show(got), sx.show(expr)))
+    if acc is A:
+        return True
+    if _snapshot(A) != a_snap:
+        raise ExtractionError("augmented %s rebinds the name AND modifies the old object" % which)
+    return False
+
+
+# ------------------------------------------------------------------------------------------------------------------
+# concrete replay of what was extracted
+
+def _mk(cl, fields, vals):
+    c = cl.Capacities()
+    for f, v in zip(fields, vals):
+        c.__dict__[f] = v
+    return c
+
+
+def _concrete_vectors(n):
+    out = []
+    for i in range(n):
+        for x in BASIS:
+            for y in BASIS:
+                a = [0] * n
+                b = [0] * n
+                a[i], b[i] = x, y
+                out.append((a, b))
+    m = len(BASIS)
+    for s in range(m):
+        for t in (0, 1, 5, 7):
+            out.append(([BASIS[(s + i) % m] for i in range(n)], [BASIS[(s + t + 3 * i) % m] for i in range(n)]))
+    return out
+
+
+def _replay(cl, fields, ops, free_e):
+    n = len(fields)
+
+    def ev(e, x, y):
+        return sx.evaluate(e, {("a", ""): x, ("b", ""): y})
+    for a, b in _concrete_vectors(n):
+        A, B = _mk(cl, fields, a), _mk(cl, fields, b)
+        checks = [
+            ("__add__", lambda: list((A + B).__dict__.values()), [ev(ops["addOp"], x, y) for x, y in zip(a, b)]),
+            ("__sub__", lambda: list((A - B).__dict__.values()), [ev(ops["subOp"], x, y) for x, y in zip(a, b)]),
+            ("FreeCapacity", lambda: list(cl.FreeCapacity(total=A, allocated=B).free.__dict__.values()), [ev(free_e, x, y) for x, y in zip(a, b)]),
+            ("__gt__", lambda: A > B, not any(ev(ops["gtFail"], x, y) for x, y in zip(a, b))),
+            ("__lt__", lambda: A < B, not any(ev(ops["ltFail"], x, y) for x, y in zip(a, b))),
+            ("__eq__", lambda: A == B, not any(ev(ops["eqFail"], x, y) for x, y in zip(a, b))),
+            ("negative_fields", lambda: A.negative_fields(), [f for f, x in zip(fields, a) if ev(ops["negField"], x, 0)]),
+            ("positive_fields", lambda: A.positive_fields(fields), not any(ev(ops["posFail"], x, 0) for x in a)),
+        ]
+        for name, run, want in checks:
+            try:
+                got = run()
+            except Exception as e:
+                raise ExtractionError("%s raises %s on concrete operands %s %s" % (name, type(e).__name__, a, b))
+            if got != want or type(got) is not type(want):
+                raise ExtractionError("%s on concrete operands %s %s gives %r, the symbolic run predicts %r" % (name, a, b, got, want))
+        if list(A.__dict__.values()) != a or list(B.__dict__.values()) != b:
+            raise ExtractionError("an operator modified the concrete operands %s %s" % (a, b))
+
+
+# ------------------------------------------------------------------------------------------------------------------
+# light AST check + method list
+
+def _ast_check(tree):
+    for cname in ("Capacities", "FreeCapacity"):
+        cls = find_class(tree, cname)
+        for n in ast.walk(cls):
+            if isinstance(n, ast.Call) and isinstance(n.func, ast.Name) and n.func.id in ("type", "id", "eval", "exec", "globals", "vars"):
+                raise ExtractionError("%s calls %s(): value-identity dependent code is not translated" % (cname, n.func.id))
+            if isinstance(n, (ast.Global, ast.Nonlocal)):
+                raise ExtractionError("%s uses global/nonlocal state" % cname)
+
+
+def special_methods(klass):
+    out = set()
+    for k in klass.__mro__:
+        if k is object:
+            continue
+        for name, v in vars(k).items():
+            if name.startswith("__") and name.endswith("__") and (callable(v) or isinstance(v, (classmethod, staticmethod, property))):
+                out.add(name)
+    # what every class has through `type` machinery and is not an operator hook
+    return sorted(out - {"__init_subclass__", "__subclasshook__", "__class_getitem__"})
 
 
 def generate():
     tree, src = parse(REL)
     cap = find_class(tree, "Capacities")
-    # field list and defaults from the running class
-    import fim.slivers.capacities_labels as cl
+    _ast_check(tree)
+    cl = _module()
     inst = cl.Capacities()
     fields = list(inst.__dict__.keys())
-    if any(v != 0 for v in inst.__dict__.values()):
+    if any(v != 0 or type(v) is not int for v in inst.__dict__.values()):
         raise ExtractionError("Capacities default is not all-zero: %r" % inst.__dict__)
     units = cl.Capacities.UNITS
     if set(units) != set(fields):
         raise ExtractionError("UNITS keys differ from fields")
+
+    C = cl.Capacities
     ops = {
-        "addOp": ("Int", arith(find_func(cap, "__add__"))),
-        "subOp": ("Int", arith(find_func(cap, "__sub__"))),
-        "gtFail": ("Bool", compare(find_func(cap, "__gt__"))),
-        "ltFail": ("Bool", compare(find_func(cap, "__lt__"))),
-        "eqFail": ("Bool", compare(find_func(cap, "__eq__"), allow_not_other=True)),
-        "negField": ("Bool", negative_fields(find_func(cap, "negative_fields"))),
-        "posFail": ("Bool", positive_fields(find_func(cap, "positive_fields"))),
+        "addOp": arith(cl, fields, lambda A, B: A + B, "__add__"),
+        "subOp": arith(cl, fields, lambda A, B: A - B, "__sub__"),
+        "gtFail": _uniform(first_fail(cl, fields, lambda A, B: A > B, "__gt__"), "__gt__"),
+        "ltFail": _uniform(first_fail(cl, fields, lambda A, B: A < B, "__lt__"), "__lt__"),
+        "eqFail": _uniform(first_fail(cl, fields, lambda A, B: A == B, "__eq__"), "__eq__"),
+        "negField": neg_fields(cl, fields),
     }
-    # every method the two classes define (own + inherited from JSONField): the model of augmented assignment
-    # (`a += b` rebinds to a new object unless an in-place operator exists) depends on this list
-    methods = sorted({n.name for n in cap.body if isinstance(n, ast.FunctionDef)} |
-                     {n.name for n in find_class(tree, "JSONField").body if isinstance(n, ast.FunctionDef)})
-    known = {"__init__", "_set_fields", "__add__", "__sub__", "__gt__", "__lt__", "__eq__", "negative_fields", "positive_fields",
-             "__str__", "update", "to_json", "from_json", "to_dict", "__repr__", "list_fields"}
-    extra = [m for m in methods if m not in known]
+    # positive_fields(fs): first-fail over the list it is given (whole list, a permuted sub-list, a single name)
+    pos = []
+    for order, arg in ((fields, list(fields)), (fields[::-2], list(fields[::-2])), (fields[1:2], fields[1])):
+        pos += first_fail(cl, fields, lambda A, B, arg=arg: A.positive_fields(arg), "positive_fields", order=order, unary=True)
+    ops["posFail"] = _uniform(pos, "positive_fields")
+    for k in ("negField", "posFail"):
+        if any(s != "a" for s, _ in sx.variables(ops[k])):
+            raise ExtractionError("%s: unexpected operand" % k)
+
+    # FreeCapacity(total=A, allocated=B).free, and the allocated=None default (= an all-zero allocation)
+    def free_call(A, B):
+        fc = cl.FreeCapacity(total=A, allocated=B)
+        if fc.total is not A:
+            raise ExtractionError("FreeCapacity.total is not the object it was given")
+        return fc.free
+    free_e = arith(cl, fields, free_call, "FreeCapacity.free")
+    free_none = arith(cl, fields, lambda A, B: cl.FreeCapacity(total=A, allocated=None).free, "FreeCapacity(allocated=None).free")
+    if free_none != sx.rename(free_e, lambda v: ("const", 0) if v[1] == "b" else v):
+        raise ExtractionError("FreeCapacity(allocated=None) is not FreeCapacity with an all-zero allocation")
+    _replay(cl, fields, ops, free_e)
+    inplace = {"iadd": probe_aug(cl, fields, ops["addOp"], "iadd"), "isub": probe_aug(cl, fields, ops["subOp"], "isub")}
+
+    def swap(e):
+        return sx.rename(e, lambda v: ("var", "b" if v[1] == "a" else "a", v[2]))
+    if free_e == ops["subOp"]:
+        free_txt = "(subOp a b)"
+    elif free_e == swap(ops["subOp"]):
+        free_txt = "(subOp b a)"
+    elif free_e == ops["addOp"]:
+        free_txt = "(addOp a b)"
+    else:
+        free_txt = sx.lean_int(free_e)
+
+    methods = special_methods(C)
+    kinds = {"addOp": "Int", "subOp": "Int"}
     body = "def fields : List String := %s\n\n" % lean_list([lean_str(f) for f in fields])
-    body += "/-- methods defined on Capacities or inherited from JSONField -/\ndef methods : List String := %s\n\n" % lean_list([lean_str(m) for m in methods])
+    body += ("/-- special methods (`__x__`) that Capacities defines or inherits below `object`, read from the running class -/\n"
+             "def methods : List String := %s\n\n" % lean_list([lean_str(m) for m in methods]))
     body += "def units : List (String × String) := %s\n\n" % lean_list(["(%s, %s)" % (lean_str(f), lean_str(units[f])) for f in fields])
-    for name, (ty, e) in ops.items():
+    text = {}
+    for name, e in ops.items():
         args = "(a : Int)" if name in ("negField", "posFail") else "(a b : Int)"
-        body += "def %s %s : %s := %s\n\n" % (name, args, ty, e)
+        if name in kinds:
+            ty, t = "Int", sx.lean_int(e)
+        else:
+            ty, t = "Bool", sx.lean_cond(e)
+        text[name] = t
+        body += "def %s %s : %s := %s\n\n" % (name, args, ty, t)
     body += "/-- FreeCapacity.__init__: free field as a function of total (a) and allocated (b). -/\n"
-    body += "def freeOp (a b : Int) : Int := %s\n" % free_capacity(find_class(tree, "FreeCapacity"))
+    body += "def freeOp (a b : Int) : Int := %s\n\n" % free_txt
+    body += ("/-- `acc = a; acc += b` / `acc -= b` probed on the real objects: `true` = the object `a` itself is changed (an in-place "
+             "operator exists), `false` = the name is rebound to a new object and `a` keeps its value -/\n")
+    body += "def iaddInPlace : Bool := %s\ndef isubInPlace : Bool := %s\n" % tuple("true" if inplace[k] else "false" for k in ("iadd", "isub"))
+    text["freeOp"] = free_txt
     changed = emit("CapOps", body)
-    return {"fields": fields, "methods": methods, "methods_not_modelled": extra, "ops": {k: v[1] for k, v in ops.items()}, "changed": changed,
-            "span": span_hash(src, cap)}
+    return {"fields": fields, "methods": methods, "ops": text, "augmented_in_place": inplace, "changed": changed, "technique": "symbolic execution + concrete replay",
+            "concrete_replay_vectors": len(_concrete_vectors(len(fields))), "span": span_hash(src, cap)}
